@@ -2,6 +2,7 @@ package nodes
 
 import (
 	"fmt"
+	"sort"
 	"strconv"
 	"strings"
 
@@ -202,8 +203,17 @@ func (sn Struct[T, G]) Inputs() []Input {
 func (sn Struct[T, G]) Dependencies() []NodeDependency {
 	output := make([]NodeDependency, 0)
 
+	// The dependencies have to come back in the same order on every call:
+	// the versions remembered by updateUsedDependencyVersions are compared
+	// position by position in Outdated, and map iteration order is random.
 	basicData := refutil.FieldValuesOfType[NodeOutputReference](sn.Data)
-	for key, val := range basicData {
+	basicKeys := make([]string, 0, len(basicData))
+	for key := range basicData {
+		basicKeys = append(basicKeys, key)
+	}
+	sort.Strings(basicKeys)
+	for _, key := range basicKeys {
+		val := basicData[key]
 		output = append(output, StructDependency{
 			name:           key,
 			dep:            val.Node(),
@@ -212,7 +222,13 @@ func (sn Struct[T, G]) Dependencies() []NodeDependency {
 	}
 
 	arrayData := refutil.FieldValuesOfTypeInArray[NodeOutputReference](sn.Data)
-	for key, field := range arrayData {
+	arrayKeys := make([]string, 0, len(arrayData))
+	for key := range arrayData {
+		arrayKeys = append(arrayKeys, key)
+	}
+	sort.Strings(arrayKeys)
+	for _, key := range arrayKeys {
+		field := arrayData[key]
 		for i, e := range field {
 			if e == nil {
 				continue
